@@ -651,7 +651,13 @@ func (g *gen) genProvide(s int) Op {
 		// a value group without a name would share its key with the plain
 		// unnamed value of the element type
 		f := g.newFn()
-		switch g.pick(3, "egkind") {
+		switch g.pick(4, "egkind") {
+		case 3:
+			// a value-group parameter without a name
+			f.R = []Result{{T: g.pickStr(g.k.Types, "gpt")}}
+			bad := Param{T: g.pickStr(g.k.Types, "gppt"), Group: "x", Tag: g.pickStr([]string{`group:",soft"`, `group:","`, `group:",soft,soft"`}, "gptag")}
+			f.P = []Param{{IsObj: true, Obj: []Param{bad}}}
+			return Op{K: OpProvide, S: s, F: f}
 		case 0:
 			// a result that is declared named *and* grouped (tags of one
 			// result-object field): named, unnamed and grouped values are
